@@ -588,3 +588,17 @@ TRIAGE[("C18", "R2", "qkeras/estimate.py::analyze_accumulator",
                   "analysed",
     "replayed": "by reading the loop (unfold_model cannot run under the "
                 "pinned Keras 3)"}
+TRIAGE[("C18", "R3",
+        "qkeras/qtools/quantized_operators/quantizer_impl.py::get_exp",
+        "min-exponent-too-large")] = {
+    "status": "fixed", "commit": "fa29744",
+    "what_fails": "for a po2 quantizer with 0 < max_value <= 1 qkeras drops "
+                  "the exponent's sign bit and emits exponents down to "
+                  "-2**non_sign_bits, qtools get_exp reported "
+                  "-2**(non_sign_bits-1): quantized_po2(4, max_value=1) "
+                  "emits 2**-8, qtools reported min exponent -4 and the "
+                  "shifter output for a quantized_bits(4,0,1) input had 7 "
+                  "fractional bits where 2**-8 * 2**-3 needs 11",
+    "replayed": "quantized_po2(4, max_value=1)(2**-8) == 2**-8 while "
+                "PowerOfTwo.get_min_max_exp() == (4, 0) on the real code "
+                "before the fix; (8, 0) after"}
